@@ -6,6 +6,7 @@ import BqVerif.Proofs.GatesGeneral
 import BqVerif.Proofs.GatesLevels
 import BqVerif.Proofs.GatesMux
 import BqVerif.Proofs.GatesMuxGrad
+import BqVerif.Proofs.GatesCKM
 import BqVerif.Proofs.GatesWitness
 import BqVerif.Model.GateShapeTable
 import BqVerif.Generated.GateShapes
@@ -482,6 +483,43 @@ example : ∃ (K : Consts ℂ) (t : Ang ℂ), K.Valid ∧ t.Valid := ⟨K0, a0, 
 theorem C18_grad_rsu3 {S : Type} [CommRing S] (K : Consts S) (index : Nat) (t : Ang S) (ε : S) :
     toM 3 (rsu3 K index (t.shift 1 ε)) = toM 3 (rsu3 K index t) + ε • toM 3 (rsu3_g K index t) :=
   grad_rsu3 K index t ε
+
+/-! ## CKM gates (the model carries the CORRECT gradient; the library's is finding 2) -/
+
+/-- `CKMGate.get_unitary = u1·u2·u3` is unitary -/
+theorem C18_unitary_ckm (K : Consts R) (hK : K.Valid) (a b c d : Ang R)
+    (ha : a.Valid) (hb : b.Valid) (hc : c.Valid) (hd : d.Valid) : IsUnitary 3 (ckm K a b c d) :=
+  unitary_ckm K hK a b c d ha hb hc hd
+example : ∃ (K : Consts ℂ) (a b c d : Ang ℂ), K.Valid ∧ a.Valid ∧ b.Valid ∧ c.Valid ∧ d.Valid :=
+  ⟨K0, a0, a0, a0, a0, K0_valid, a0_valid, a0_valid, a0_valid, a0_valid⟩
+
+/-- `CKMdgGate.get_unitary` (the same product at the negated parameters) is unitary -/
+theorem C18_unitary_ckmdg (K : Consts R) (hK : K.Valid) (a b c d : Ang R)
+    (ha : a.Valid) (hb : b.Valid) (hc : c.Valid) (hd : d.Valid) : IsUnitary 3 (ckmdg K a b c d) :=
+  unitary_ckmdg K hK a b c d ha hb hc hd
+example : ∃ (K : Consts ℂ) (a b c d : Ang ℂ), K.Valid ∧ a.Valid ∧ b.Valid ∧ c.Valid ∧ d.Valid :=
+  ⟨K0, a0, a0, a0, a0, K0_valid, a0_valid, a0_valid, a0_valid, a0_valid⟩
+
+/-- the product-rule gradient matrices of `CKMGate` are the first-order coefficients of the
+unitary in each of the four parameters (in every commutative ring, for every displacement) -/
+theorem C18_grad_ckm {S : Type} [CommRing S] (K : Consts S) (a b c d : Ang S) (ε : S) :
+    ckm K (a.shift 1 ε) b c d = addM (ckm K a b c d) (smulM ε (ckm_g0 K a b c d)) ∧
+    ckm K a (b.shift 1 ε) c d = addM (ckm K a b c d) (smulM ε (ckm_g1 K a b c d)) ∧
+    ckm K a b (c.shift 1 ε) d = addM (ckm K a b c d) (smulM ε (ckm_g2 K a b c d)) ∧
+    ckm K a b c (d.shift 1 ε) = addM (ckm K a b c d) (smulM ε (ckm_g3 K a b c d)) :=
+  grad_ckm K a b c d ε
+
+/-- `CKMdgGate`: minus the CKM gradient at the negated parameters -/
+theorem C18_grad_ckmdg {S : Type} [CommRing S] (K : Consts S) (a b c d : Ang S) (ε : S) :
+    ckmdg K (a.shift 1 ε) b c d =
+      addM (ckmdg K a b c d) (smulM ε (negM (ckm_g0 K a.neg b.neg c.neg d.neg))) ∧
+    ckmdg K a (b.shift 1 ε) c d =
+      addM (ckmdg K a b c d) (smulM ε (negM (ckm_g1 K a.neg b.neg c.neg d.neg))) ∧
+    ckmdg K a b (c.shift 1 ε) d =
+      addM (ckmdg K a b c d) (smulM ε (negM (ckm_g2 K a.neg b.neg c.neg d.neg))) ∧
+    ckmdg K a b c (d.shift 1 ε) =
+      addM (ckmdg K a b c d) (smulM ε (negM (ckm_g3 K a.neg b.neg c.neg d.neg))) :=
+  grad_ckmdg K a b c d ε
 
 /-! ## Qudit gates -/
 
